@@ -460,14 +460,10 @@ func init() {
 			nr := r.P.Func("workers/operator", "NewTimerRegistry")
 			ni := nr.Pkg.TypesInfo
 			okInit := false
-			inspect(nr.Decl.Body, func(nd ast.Node) bool {
-				rs, ok := nd.(*ast.RangeStmt)
-				if !ok || !r.isParam(nr, rs.X, 1) {
-					return true
-				}
-				inspect(rs.Body, func(m ast.Node) bool {
+			for _, lp := range fullLoopsOver(ni, nr.Decl.Body, func(e ast.Expr) bool { return r.isParam(nr, e, 1) }) {
+				inspect(lp.Body, func(m ast.Node) bool {
 					if as, ok := m.(*ast.AssignStmt); ok && len(as.Lhs) == 1 && len(as.Rhs) == 1 {
-						if ix, ok := ast.Unparen(as.Lhs[0]).(*ast.IndexExpr); ok && prog.IdentObj(ni, ix.Index) == prog.IdentObj(ni, rs.Value) {
+						if ix, ok := ast.Unparen(as.Lhs[0]).(*ast.IndexExpr); ok && lp.IsElem(ix.Index) {
 							if call, ok := isCallToNamed(ni, as.Rhs[0], "time", "Unix"); ok && len(call.Args) == 2 {
 								a, b := ni.Types[call.Args[0]], ni.Types[call.Args[1]]
 								if a.Value != nil && b.Value != nil && a.Value.String() == "0" && b.Value.String() == "0" {
@@ -478,8 +474,7 @@ func init() {
 					}
 					return true
 				})
-				return true
-			})
+			}
 			r.Site(nr.Decl.Pos(), "NewTimerRegistry initialises every upstream with the epoch")
 			if !okInit {
 				r.Fail(nr.Name()+":epoch-init", nr.Decl.Pos(), nil, "upstream watermarks are not initialised to time.Unix(0, 0) for every source runner id: a runner that has not reported would not hold the minimum back")
